@@ -62,7 +62,8 @@ CHECKS = {
                  "(client closes / closes with the end of stream reported by the read that returns the last bytes / silent until the virtual-time deadline); quick N=2 L=3 plus N=3 L=3 over a reduced alphabet of 15 atoms, thorough N=3 L=4 over all 48. (2) rapid: lists of <=4 routes, nesting <=2, "
                  "1-3 matchers per set, `not`, peek/read matchers, streams <=64 over {a,b,c}. Oracle: validity predicate over the recorded trace. "
                  "Non-trivial = >=2 routes, some route needs bytes before it can be decided, and one of: subroute, `not`, fallback ran, continuation after a "
-                 "non-terminal route; distinct = distinct (route list, segmentation, end mode)."),
+                 "non-terminal route; distinct = distinct (route list, segmentation, end mode)."
+                 " Non-terminal handlers may hand a wrapped connection on (as tls / proxy_protocol do), which reports an address of its own: every later handler must be given that one."),
         "exhaustive": {"quick": False, "thorough": False},
         "assumptions": ["harness matchers are pure monotone functions of the available bytes, so the verdict a route had when it was invoked is recomputed from the recorded available bytes",
                         "evaluation order of several matchers inside one set is unspecified (JSON map): such sets are judged three-valued with ambiguity, never guessed",
@@ -126,7 +127,8 @@ CHECKS = {
                  "Observed: bytes, addresses and placeholders seen by a recorder behind the handler and remote_ip/local_ip matchers in a following subroute. "
                  "send: proxy handler v1/v2 to 1-3 loopback peers, client v4/v6, with a received header first (composition), parsed by an independent parser; and a server-speaks-first "
                  "exchange in which the upstream must hold a complete header while the client is still silent, answers the end of the client's stream with a last line, and one client in 400 waits 3.3 s before sending. "
-                 "Non-trivial = header split across reads or coalesced with payload, TLVs, allow-list miss, composition or prefetched bytes; distinct = distinct case."),
+                 "Non-trivial = header split across reads or coalesced with payload, TLVs, allow-list miss, composition or prefetched bytes; distinct = distinct case."
+                 " Allow lists also in IPv4-mapped notation (membership by package net)."),
         "assumptions": ["v2 headers with TLVs are rejected by the PROXY protocol library in use: then the connection must fail closed (no handler runs); acceptance is not demanded",
                         "v1 UNKNOWN declares no addresses; what later matchers see is not judged (the library reports an empty TCP address)",
                         "v1 cannot carry UDP addresses: composition UDP->v1 is not judged"],
@@ -145,7 +147,8 @@ CHECKS = {
                  "placeholders, unset placeholders) x generated client byte scripts (version, method lists, user/pass sub-negotiation right/wrong/unknown/empty, exactly a configured entry with its placeholders resolved - usable or not -, its trimmed or re-split form, a known user with another password, command 0-255 "
                  "samples, IPv4/domain/IPv6/garbage address types, truncations) through the real handler over loopback TCP with a loopback target listener; in a third of the cases 0-2 other socks5 handlers with generated configurations of their own are provisioned before and after the handler under test, one of them from the same configuration text while its placeholders had other values (rotated secrets). Oracle (safety): "
                  "target accepts / REP=0 / new UDP socket only if the configuration permits the command for that client. Non-trivial = credentials configured and a "
-                 "syntactically valid request; distinct = distinct (config, session)."),
+                 "syntactically valid request; distinct = distinct (config, session)."
+                 " Entries longer than 255 bytes (unusable) with clients presenting their first 255 bytes."),
         "assumptions": ["the reference reading of the configuration comes from the handler's documentation: default commands CONNECT+ASSOCIATE, credentials with an empty (resolved) user name are unusable",
                         "BIND is answered 'command not supported' by the library even when enabled; only safety is judged"],
         "min_classes": {"quick": {"C16/served": 25, "C16/must-refuse": 600, "C16/may-serve": 60, "C16/generated+siblings": 300}},
@@ -160,10 +163,11 @@ CHECKS = {
                  "or trickle a few bytes every 5..60 ms; one case in ten configures bursts (1 B..4 KiB) and no rate, where no more than the burst may ever pass (1..4 "
                  "connections, cancelled after 25 ms, delivered bytes must be a prefix of the stream). Every read on the underlying scripted connection is logged with its completion time. Oracle (one-sided): cumulative "
                  "bytes <= burst + rate x (t - first read attempt) per connection and summed for the total limit; first read not before entry + latency - 5 ms; bytes "
-                 "delivered == stream. Non-trivial = stream > 2 x burst (>= 2 limiter waits) or >= 2 connections under a total limit; distinct = distinct case."),
+                 "delivered == stream. Non-trivial = stream > 2 x burst (>= 2 limiter waits) or >= 2 connections under a total limit; distinct = distinct case."
+                 " In a quarter of the cases throttle is the last handler of a route of its own and the reader sits in the next route."),
         "assumptions": ["time is read after the observed read returned and the reference instant before the first read is attempted, so scheduling delay can only loosen the bound (no false 'too fast')",
                         "tolerance: 1 byte per connection; for the total limit shared by n > 1 connections also total rate x 1 ms x n (golang.org/x/time/rate credits an interval twice when a caller with an older time stamp gets the lock later)"],
-        "min_classes": {"quick": {"C17/per-connection-limit": 80, "C17/total-limit-shared": 30, "C17/latency": 50, "C17/trickling-client": 50, "C17/burst-only": 10}},
+        "min_classes": {"quick": {"C17/per-connection-limit": 80, "C17/total-limit-shared": 30, "C17/latency": 50, "C17/trickling-client": 50, "C17/burst-only": 10, "C17/throttle-in-a-route-of-its-own": 25}},
         "runs": [
             {"name": "throttle", "pkg": "./c17", "run": ".", "rapid_checks": {"quick": 40, "thorough": 1500},
              "shards": {"quick": 8, "thorough": 16}, "timeout": {"quick": 600, "thorough": 7200}},
@@ -194,11 +198,12 @@ CHECKS = {
                  "a generated overlay of layer4/server.go); then every client keeps sending until it is served again, and the socket is closed. Oracle: invariants over the "
                  "recorded deliveries/replies/associations (a client whose association never ended gets every datagram; suspected losses are reproduced on fresh servers "
                  "before they count) and no panic or wedge of the loop. Non-trivial = >= 2 clients and an association that ended followed by more "
-                 "datagrams, or > 30 deliveries; distinct = distinct history."),
+                 "datagrams, or > 30 deliveries; distinct = distinct history."
+                 " Client addresses are UDP/IPv4, zoned IPv6 or unixgram paths; a stampede variant lets clients whose association has ended send again while the loop is held up (two or more of those datagrams lost = violation)."),
         "assumptions": ["handlers always drain their association (bounded sleeps), so a wedged loop cannot be blamed on them",
                         "datagrams that are still queued when an association ends may be dropped (UDP); loss is not a violation, cross-delivery, duplication and reordering are",
                         "interleavings of Close with the loop are reached by volume and generated delays, not enumerated"],
-        "min_classes": {"quick": {"C09/association-ended-then-more": 60, "C09/idle-overlay-active": 50}},
+        "min_classes": {"quick": {"C09/association-ended-then-more": 60, "C09/idle-overlay-active": 50, "C09/client-addresses/unixgram": 15, "C09/late-datagrams-for-ended-associations-while-the-loop-was-held": 100}},
         "runs": [
             {"name": "demux", "pkg": "./c09", "run": ".", "rapid_checks": {"quick": 30, "thorough": 1500}, "rapid_steps": {"quick": 25, "thorough": 40},
              "shards": {"quick": 6, "thorough": 16}, "timeout": {"quick": 600, "thorough": 7200}},
@@ -212,9 +217,10 @@ CHECKS = {
                  "Oracle: per connection delivered exactly once with exactly its unconsumed stream (TLS: plaintext and ConnectionState) or never delivered and closed; Accept "
                  "reports net.ErrClosed after Close and keeps doing so; no goroutine with a layer4.(*listener) frame after 5 s. Plus single connections through routes whose "
                  "matchers never read (remote_ip / local_ip / not), handed over at once, whose client sends 0-1.5 matching timeouts later to a consumer that arms no deadline. Non-trivial = >= 2 outcome kinds with a "
-                 "fall-through that carried prefetched bytes."),
+                 "fall-through that carried prefetched bytes."
+                 " In a third of the batches the underlying listener reports a temporary error (EMFILE) once or twice."),
         "assumptions": ["after an early close a pending connection may either be delivered once or be closed", "timing is only used as a bound on waiting, never as a verdict on its own"],
-        "min_classes": {"quick": {"C13/early-close": 20, "C13/slow-consumer": 40, "C13/no-consumer-until-close": 10, "C13/delivered": 400, "C13/hand-over-without-prefetch": 100}},
+        "min_classes": {"quick": {"C13/early-close": 20, "C13/slow-consumer": 40, "C13/no-consumer-until-close": 10, "C13/delivered": 400, "C13/hand-over-without-prefetch": 100, "C13/underlying-accept-failed-temporarily": 15}},
         "runs": [
             {"name": "wrapper", "pkg": "./c13", "run": ".", "rapid_checks": {"quick": 40, "thorough": 2500},
              "shards": {"quick": 4, "thorough": 16}, "timeout": {"quick": 600, "thorough": 7200}},
@@ -257,7 +263,8 @@ CHECKS = {
                  "prefetches 0-6000 bytes first; faults: client or one peer resets (SO_LINGER 0) at a generated offset. Peers use disjoint byte alphabets so that the "
                  "interleaving at the client can be split. Oracle: exact streams and EOF in both directions, handler returns, upstream connections closed, fd count restored; "
                  "fault cases: prefixes only, handler returns. Plus a datagram upstream (udp/): request out, 1-4 reply datagrams of 1 B..32 KiB back whole and in order; and an upstream "
-                 "whose second peer refuses at first with retries configured: every connection opened to the first peer, also by the attempts given up, is closed when the handler has returned. Non-trivial = both directions non-empty with data sent after the other side's EOF, or >= 2 peers, or prefetched bytes."),
+                 "whose second peer refuses at first with retries configured: every connection opened to the first peer, also by the attempts given up, is closed when the handler has returned. Non-trivial = both directions non-empty with data sent after the other side's EOF, or >= 2 peers, or prefetched bytes."
+                 " A quarter of the peers read slowly through a 4 KiB receive buffer, so that data is still in the proxy's socket when the relay ends."),
         "assumptions": ["interleavings of the relay goroutines are sampled", "downstreams without half-close (behind proxy_protocol/throttle, UDP) are outside the 'wherever the transport offers' clause"],
         "min_classes": {"quick": {"C03/tls": 40, "C03/unix": 40, "C03/fault": 20, "C03/half-close-with-data-after-eof": 60, "C03/peers/3": 20, "C03/prefetched": 40, "C03/upstream-tls": 40, "C03/tls12-close-with-last-record": 8, "C03/udp-upstream": 200, "C03/retried-attempts": 120}},
         "runs": [
@@ -276,9 +283,10 @@ CHECKS = {
                  "50-250 ms, upstream stays down or comes back inside the window: duration bounds, last error, attempts spaced; (3) active checks: interval 50-100 ms, listener "
                  "toggled 2-6 times (in half of the cases while a proxied connection to the peer stays open and the peer only stops accepting), health flag follows within 3 intervals + 150 ms (+ 3 s patience); (4) connection limits 1-3 via max_connections or unhealthy_connection_count: histories of "
                  "opens and releases of held proxied connections (the limited upstream has one or two peers; an outage of its last peer makes a dial attempt fail half-way), which upstream accepted each. Non-trivial = a failure that expires or reaches max_fails, a non-zero try_duration, "
-                 "any active/limit history; distinct = distinct (settings, history)."),
+                 "any active/limit history; distinct = distinct (settings, history)."
+                 " Retry cases whose upstream stays down also use max_fails 1 or 2 (the upstream leaves rotation during the retry window): the connection must still fail with the refused dial."),
         "assumptions": ["peer counters are read through an overlay export shim", "upper time bounds use slack >= 1 s and are dropped when the stall monitor saw the process held up for > 40 ms"],
-        "min_classes": {"quick": {"C11/passive-window": 15, "C11/retry-window": 15, "C11/active-checks": 15, "C11/connection-limit": 15, "C11/reload-or-active-recovery": 10, "C11/active-checks-with-open-connection": 4}},
+        "min_classes": {"quick": {"C11/passive-window": 15, "C11/retry-window": 15, "C11/retry-after-upstream-left-rotation": 3, "C11/active-checks": 15, "C11/connection-limit": 15, "C11/reload-or-active-recovery": 10, "C11/active-checks-with-open-connection": 4}},
         "runs": [
             {"name": "health", "pkg": "./c11", "run": ".", "rapid_checks": {"quick": 5, "thorough": 180},
              "shards": {"quick": 6, "thorough": 16}, "timeout": {"quick": 600, "thorough": 7200}},
@@ -294,7 +302,8 @@ CHECKS = {
                  "sub-matchers, placeholders, 'incomplete is undecided' and 'non-handshake never matches'; 2-12 such hellos are also matched at the same time, 5-40 rounds each, "
                  "by ONE matcher instance (as the connections of one route are) and each must get its own server name and verdict; and a tls matcher evaluated on the plaintext "
                  "of a terminated session (connection wrapped) must read the inner hello. Non-trivial = SNI and >= 1 ALPN protocol, or resumption, or a restricted "
-                 "version range; distinct = distinct (hello bytes, matcher config)."),
+                 "version range; distinct = distinct (hello bytes, matcher config)."
+                 " Half of the mutated hellos carry record-header versions 3.0 .. 3.4."),
         "assumptions": ["a ClientHello split across several TLS records is out of scope (the matcher reads one record by design; crypto/tls never emits that below 16 KiB)",
                         "run with the default toolchain go1.23; hellos of a newer crypto/tls (post-quantum key shares) can be explored by running the thorough tier under go1.26.8"],
         "min_classes": {"quick": {"C07/resumption-hello": 30, "C07/mutated-grease": 15, "C07/mutated-permuted": 15, "C07/verdict/true": 80, "C07/verdict/false": 80, "C07/shared-matcher-concurrent": 100, "C07/inner-hello-after-termination": 100}},
@@ -312,7 +321,8 @@ CHECKS = {
                  "with their options, incl. the `private_ranges` shorthand and `!`-negated ranges of the ip matchers; inline and block forms; `not` nested up to 2), defined before or after the routes that name them and reused, routes with 1-3 handlers (all 9 handlers "
                  "with their options, proxy upstreams in every documented form incl. `upstream <addr> { dial ... }`; subroute and tee nested up to depth 2), and the listener-wrapper form inside `servers { listener_wrappers { layer4 {...} } }`. Oracle: adapter output "
                  "== expected JSON (as JSON values), adapting twice is byte-identical, the JSON provisions (tls app loaded, files not needed), JSON -> App/ListenerWrapper -> JSON "
-                 "reproduces it. Non-trivial = nesting >= 2 (subroute/tee/not) and a named set used twice; distinct = distinct Caddyfile text."),
+                 "reproduces it. Non-trivial = nesting >= 2 (subroute/tee/not) and a named set used twice; distinct = distinct Caddyfile text."
+                 " socks5 credentials with an empty user name, an empty password, several options."),
         "assumptions": ["options that need files (key files, CA pools, client certificates) are not generated",
                         "the expected JSON is written from the documentation of each option, not from the adapter's code"],
         "min_classes": {"quick": {"C15/listener-wrapper": 300, "C15/several-global-blocks": 200, "C15/named-set-reused": 200, "C15/uses/openvpn": 50, "C15/uses/tee": 100}},
@@ -329,7 +339,8 @@ CHECKS = {
                  "l4.conn.wrap_time), dns (TCP/UDP framing, header flags, trailing bytes, allow/deny/regexp rules, default_deny, prefer_allow), rdp (cookie/token incl. port fields beyond 16 bits/custom x RDP_NEG_REQ x "
                  "correlation info x the five filters), wireguard (initiation/keepalive sizes, type, reserved bytes vs zero), openvpn (plain/auth/crypt hard resets signed with "
                  "generated keys, digests, replay ids, timestamps, modes; TCP and UDP), winbox (modes, user-name alphabet, key length, parity, filters), http (request line, "
-                 "host/path/method/header sub-matchers, percent-escaped targets and queries, HTTP/2 prior knowledge). Non-trivial = a filtered or corrupted case with a specified verdict; distinct = distinct (config, message)."),
+                 "host/path/method/header sub-matchers, percent-escaped targets and queries, HTTP/2 prior knowledge). Non-trivial = a filtered or corrupted case with a specified verdict; distinct = distinct (config, message)."
+                 " OpenVPN: group_key_direction in all spellings, tls-auth packets signed with either half of the key, tls-crypt independent of it."),
         "assumptions": ["where the definitions leave a case open (SOCKS5 greeting without methods, IPv4-mapped addresses, packets that can be read as another OpenVPN mode, free-form RDP routing info followed by odd bytes) the case is generated but not judged",
                         "regular expressions in generated configurations avoid brace quantifiers: Caddy replaces {...} placeholders before a pattern is compiled",
                         "OpenVPN messages are signed/encrypted with the module's own primitives (there is no second implementation offline); field-level rules are independent"],
